@@ -2327,6 +2327,8 @@ def glom(target, spec, **kwargs):
             err = GlomError.wrap(e)
         if isinstance(err, GlomError):
             err._finalize(scope[LAST_CHILD_SCOPE])
+            if _verif_hook is not None:
+                _verif_hook('final', scope, err)
         else:  # wrapping failed, fall back to default behavior
             raise
 
